@@ -75,22 +75,36 @@ class Ctx:
             ref = self.eng.heap_read(self.st, ref, p, heap=heap)
         return ref, parts[-1]
 
+    def _untraced(self, fn):
+        """contract clauses read fields without leaving heap-access events (those describe the code, not the spec)"""
+        saved, self.eng.trace_fields = self.eng.trace_fields, ()
+        try:
+            return fn()
+        finally:
+            self.eng.trace_fields = saved
+
     def f(self, path):
-        ref, fld = self._resolve(path, None)
-        val = self.eng.heap_read(self.st, ref, fld)
-        return val.term if isinstance(val, Val) else val
+        def go():
+            ref, fld = self._resolve(path, None)
+            val = self.eng.heap_read(self.st, ref, fld)
+            return val.term if isinstance(val, Val) else val
+        return self._untraced(go)
 
     def old(self, path):
-        ref, fld = self._resolve(path, None)
-        self.eng.heap_read(self.st, ref, fld)  # make sure it exists (lazily created => also in pre heap)
-        val = self.pre_heap.get((ref.oid, fld))
-        if val is None:
-            val = self.st.old_heap[(ref.oid, fld)]
-        return val.term if isinstance(val, Val) else val
+        def go():
+            ref, fld = self._resolve(path, None)
+            self.eng.heap_read(self.st, ref, fld)  # make sure it exists (lazily created => also in pre heap)
+            val = self.pre_heap.get((ref.oid, fld))
+            if val is None:
+                val = self.st.old_heap[(ref.oid, fld)]
+            return val.term if isinstance(val, Val) else val
+        return self._untraced(go)
 
     def fval(self, path):
-        ref, fld = self._resolve(path, None)
-        return self.eng.heap_read(self.st, ref, fld)
+        def go():
+            ref, fld = self._resolve(path, None)
+            return self.eng.heap_read(self.st, ref, fld)
+        return self._untraced(go)
 
     @property
     def result(self):
